@@ -1,6 +1,7 @@
 SPECIFICATION Spec
 CONSTANTS AsFoundJoin = FALSE AsFoundOrder = FALSE
 INVARIANT IdentityShape
+INVARIANT PartsShape
 INVARIANT DesignationIrrelevant
 INVARIANT NeverWrongIdentity
 INVARIANT PromisedSucceeds
